@@ -96,6 +96,14 @@ TEXT = {
                    "another session served throughout, idle timeout, stalls. The OS, net/http and memory are outside the model.",
              note=_std_note + " Timing-dependent: the wire scenarios use generous limits (seconds) relative to a 400 ms idle timeout.",
              technique=_tech + " + wire-level scenarios on the real server (go/cmd/wire)"),
+ 'C09': dict(level="PARTIAL. Decided in Lean's kernel from the facts the translator regenerates from the current source on every run (Model/Locks.lean over Gen/Facts.lean): C09_lockset (every method of a "
+                   "shared structure that touches a guarded field takes the mutex that guards it; guard map and three exemptions spelled out), C09_grid_locked (every dagaz handler that reaches the "
+                   "session's grid holds the state's mutex), C09_nesting / C09_lock_order (the only nested acquisition is subscriptionMutex then mutex in the component store: no lock-order cycle). "
+                   "These are statements about the program text at method granularity, not about schedules. The schedule part is measured, not proved: randomised real-thread executions of the real "
+                   "server (4-16 clients, shared sessions, all modules, production decorators, real sockets) built with -race, no report may involve a hagall package, with a completion watchdog "
+                   "(deadlock) and end-state checks. The exhaustive lock-granularity interleavings the property also quantifies over are NOT built.",
+             note=_std_note + " Sends made while a lock is held (Session.Broadcast, Notify) are outside the static theorems; the stalled-reader wedge they enabled is fixed (C08) and exercised by the wire scenarios.",
+             technique="Lean 4 theorems decided by kernel evaluation over facts regenerated from the source + real-thread executions under the Go race detector"),
  'C11': dict(level="C11_order: for every interleaving of receives, frame ticks and consumptions on a connection's scheduler (the model of hagall-common's coalescing map + FIFO, "
                    "with the main loop free to take any item of a flushed group), the pose updates of an entity consumed so far followed by those in flight are a subsequence, in order, "
                    "of the updates received, and their last element is the latest received; C11_latest_arrives: once nothing is in flight the last consumed is the last received; "
@@ -118,6 +126,4 @@ TEXT = {
 _na = ("Lean proof applies to the sequential part of this property and a model exists, but the property theorems were not completed, "
        "so the property is not claimed rather than decided by a weaker technique; see DESIGN.md section 0.3. ")
 NA = {
- 'C09': "Data races and deadlocks exist only in schedules; a lock-granularity scheduler over the real code and -race runs are not built. Lock, field and channel facts are extracted "
-        "but no theorem or check decides them.",
 }
